@@ -24,7 +24,7 @@ import (
 
 var wa, wb *rk.World
 
-func reset() { wa, wb = nil, nil }
+func reset() { wa, wb = nil, nil; vmReset() }
 
 func oracle(o *rk.Obs) string {
 	b, a := o.Before, o.After
@@ -91,6 +91,13 @@ func oracle(o *rk.Obs) string {
 }
 
 func exec(t []string) (string, string) {
+	if len(t) > 0 {
+		switch t[0] {
+		case "vtx", "vsim", "vq", "vrestart":
+			// second stream: differential replay through the real gno.land app (vm.go)
+			return vmExec(t)
+		}
+	}
 	if len(t) > 0 && t[0] == "init" {
 		if len(t) != 2 {
 			return "err:badop", "-"
@@ -426,6 +433,8 @@ func gen(o *kit.Out, r *kit.Rand, tier string) {
 		x.random(250)
 	}
 	x.malformed()
+	// second stream (vm.go, vmgen.go); forked last, so the lines above do not depend on it
+	vmGen(o, r.Fork(), tier)
 }
 
 func main() {
